@@ -2,7 +2,7 @@
 // PlaneModel::check_meta_collisions) -- property C18, last sentence: a server that accepted its routes resolves every URI to at
 // most one agent definition (the introspection meta routes included). (Vec/HashSet of boxed agents and string patterns: outside
 // Verus/Kani; the pairwise ambiguity check itself is the bx component route_pattern.)
-// EVERY set of up to VERIF_BX_DEPTH routes from a universe of 12 patterns (some overlapping each other, some overlapping the
+// EVERY set of up to VERIF_BX_DEPTH routes from a universe of 14 patterns (some overlapping each other, some overlapping the
 // node meta route, some the lane meta route) is offered to the real builder.
 // Contract: build() succeeds exactly when no two of the routes are ambiguous, and the routes it rejects are exactly the
 // ambiguous ones; check_meta_collisions() succeeds exactly when no route is ambiguous with a meta route, and otherwise names
@@ -25,6 +25,8 @@ fn plane_routes_contract() {
     let texts = [
         "/node", "/node/:id", "/:a/:b", "/other", ":x", "swimos:meta:node/:n", "swimos:meta:node/:n/lane/:l", ":s/:t/lane/:u", "swimos:meta:node/fixed",
         ":a/:b/:c/:d", "/a/b/c/d", "swimos:meta:mesh",
+        // parameter-free routes that denote a route already in the universe under a different text (an escape, a scheme)
+        "/n%6Fde", "warp:/other",
     ];
     let universe: Vec<RoutePattern> = texts.iter().map(|t| RoutePattern::parse_str(t).expect("pattern")).collect();
     let (node, lane) = (node_pattern(), lane_pattern());
